@@ -243,6 +243,9 @@ func (r *Run) writeReplay(v Violation) string {
 	b, _ := json.MarshalIndent(v, "", " ")
 	sum := sha256.Sum256(b)
 	dir := filepath.Join(VerifDir(), "replays", r.ID)
+	if RepoDir() != "/repo" {
+		dir = filepath.Join(VerifDir(), ".scratch", "replays", r.ID) // a run against a scratch tree
+	}
 	os.MkdirAll(dir, 0o755)
 	p := filepath.Join(dir, hex.EncodeToString(sum[:6])+".json")
 	os.WriteFile(p, b, 0o644)
